@@ -35,7 +35,7 @@ ASSUMPTIONS = ['visibility read off the observation: a view cell is visible iff 
 EXHAUSTIVE_NOTE = 'all opacity patterns (agent cell transparent) of 3x3 and 4x3 views with every single-cell flip, x 2 functions (thorough: 3x5 too)'
 REQUIRED = {'quick': {'ni.pairs': 20000, 'chain.checked': 5000, 'monotone.pairs': 3000, 'patterns': 2000,
                       'stochastic.checked': 1000, 'stochastic.hidden_by_chance': 50, 'agent_cell.checked': 5000,
-                      'ni.outside_view': 500, 'ni.hidden_in_view': 5000}}
+                      'ni.outside_view': 500, 'ni.hidden_in_view': 5000, 'history_states.compared': 200}}
 OCCLUDING = ['partially_occluded', 'raytracing']
 N8 = [(-1, -1), (-1, 0), (-1, 1), (0, -1), (0, 1), (1, -1), (1, 0), (1, 1)]
 
@@ -279,6 +279,21 @@ def run(ctx):
                 stochastic(ctx, state, area, fns, ctx.pick(6, 40), rng)
             if k == 0:
                 ctx.sample('random', {'state': enc.render(state), 'area': obsgen.area_json(area)})
+            # the same monitors on a state reached through the real dynamics (doors opened in place ...), plus:
+            # its observation equals the one of a freshly built equal state (opacity is a function of the state's value)
+            hstate = obsgen.history_state(rng)
+            fresh = obsgen.rebuilt(hstate)
+            for name in OCCLUDING:
+                if obsgen.supported(name, area):
+                    analyse(ctx, hstate, area, name, fns[(name, area)], 4, rng, label='history state: ')
+                    ok1, o1 = call_real(fns[(name, area)], hstate, rng=None)
+                    ok2, o2 = call_real(fns[(name, area)], fresh, rng=None)
+                    ctx.hit('history_states.compared')
+                    if ok1 and ok2 and enc.es(o1) != enc.es(o2):
+                        ctx.violation('occlusion', f'{name}.differs_for_equal_states',
+                                      f'{name} area {obsgen.area_json(area)}: a state reached through the dynamics (e.g. a door opened '
+                                      f'in place) is occluded differently from a freshly built equal state', 'occ_case',
+                                      {'state': enc.state_to_json(hstate), 'area': obsgen.area_json(area), 'fn': name})
 
 
 def replay(ctx, kind, payload):
